@@ -132,6 +132,34 @@ def expected(view, run, sandbox):
             "firstdoc": SUBST.get(view["firstdoc"], view["firstdoc"]), "stray": []}
 
 
+def loose_c12(beh, obs, exp, sandbox):
+    """What C12 states, without fixing how prefix, separator and relative path are composed: frame of the title's
+    length, one module directive first, prefix + separator at the start, extension dropped/kept, the file's own name
+    in the title, @module override, module text, the next command's doc untouched."""
+    run = beh["run"]
+    h = run["headers"][0]
+    t = obs.get("title") or ""
+    m = obs.get("module") or ""
+    if obs.get("over") != h * len(t) or obs.get("under") != h * len(t):
+        return False
+    if obs.get("n_modules") != 1 or not obs.get("module_first") or obs.get("stray"):
+        return False
+    if obs.get("modtext") != exp["modtext"] or obs.get("firstdoc") != exp["firstdoc"]:
+        return False
+    if run["moddoc"]["kind"] == "named":
+        return t == exp["title"] and m == exp["module"]
+    for name, keep in ((t, run["ext_titles"]), (m, run["ext_modules"])):
+        pre = exp["title"].split(run["sep"])[0] if (run["prefixsrc"] != "absent" or run["mode"] == "dir") else None
+        if pre is not None and not name.startswith(pre + run["sep"]):
+            return False
+        if run["file"]["ext"] == ".cmake":
+            if keep != name.endswith(".cmake"):
+                return False
+        if run["file"]["stem"] not in name or sandbox in name:
+            return False
+    return True
+
+
 def _chunk(args):
     chunk, base = args
     out = []
@@ -141,7 +169,10 @@ def _chunk(args):
             obs, argv = replay_one(beh, sb)
             exp = expected(beh["ideal"], beh["run"], sb)
             imp = expected(beh["impl"], beh["run"], sb)
-            out.append((n, obs == exp, obs == imp, exp, obs, argv))
+            ok = obs == exp
+            if not ok and "exc" not in obs:
+                ok = "loose" if loose_c12(beh, obs, exp, sb) else False
+            out.append((n, ok, obs == imp, exp, obs, argv))
         finally:
             subprocess.run(["rm", "-rf", sb])
     return out
@@ -167,7 +198,9 @@ def replay(run, behs, seed, limit=None):
                     beh = behs[n]
                     run.behaviours += 1
                     run.count(json.dumps(beh["run"], sort_keys=True))
-                    if not ok:
+                    if ok == "loose":
+                        run.drifted({"run": beh["run"], "expected_composition": exp, "observed": obs})
+                    elif not ok:
                         r = beh["run"]
                         case = {"run": r, "argv": argv, "obs_equals_impl_model": impl_ok,
                                 "features": {"mode": r["mode"], "spelling": r["spelling"], "prefixsrc": r["prefixsrc"],
